@@ -246,6 +246,57 @@ pub fn run(ctx: &mut Ctx) {
         let (a, b) = (mk(&mut r), mk(&mut r));
         judge_pair(ctx, &a, &b, "long-conjunction");
     }
+    // every kind of side (comparator sets *and* hyphen ranges) joined by `||` in every
+    // spelling of the separator and in both orders, two and three alternatives: the union law
+    ctx.stratum("OS-or-spellings-with-hyphen-sides", false);
+    let nos = ctx.tier.n(4_000, 400_000);
+    for i in 0..nos {
+        if !ctx.take() {
+            continue;
+        }
+        let mut r = Rng::for_case(ctx.seed, "C02-OS", i);
+        let nums: &[u64] = if r.chance(3, 4) { &[0, 1, 2, 3] } else { crate::gen::NUMS_POOL };
+        let mut mk = |r: &mut Rng| -> String {
+            if r.chance(1, 2) {
+                let (lo, hi) = (rand_partial(r, nums), rand_partial(r, nums));
+                format!("{} - {}", lo.render(&Spelling::plain(), false), hi.render(&Spelling::plain(), false))
+            } else {
+                let k = 1 + r.below(2);
+                (0..k).map(|_| cmp_text(*r.pick(ALL_OPS), &rand_partial(r, nums))).collect::<Vec<_>>().join(" ")
+            }
+        };
+        let parts: Vec<String> = (0..2 + r.below(2)).map(|_| mk(&mut r)).collect();
+        let sides: Vec<Option<Side>> = parts.iter().map(|t| side(t)).collect();
+        ctx.begin(|| format!("C02 or-spellings {:?}", parts));
+        let mut bs: Vec<&Bs> = vec![];
+        for s in sides.iter().flatten() {
+            bs.push(&s.b);
+        }
+        let probes = probes_for(&bs);
+        for sep in ["||", " || ", " ||", "|| ", "\t||\t", "  ||  "] {
+            let text = parts.join(sep);
+            let whole = guarded(|| Range::parse(&text)).ok().and_then(|x| x.ok());
+            ctx.eval(1);
+            ctx.class(&format!("or-spelling:{:?}:{}", sep, parts.len()));
+            let mut any_side_admits = false;
+            for v in &probes {
+                let want = sides.iter().flatten().any(|s| sat(&s.range, v));
+                any_side_admits |= want;
+                let got = whole.as_ref().map(|w| sat(w, v)).unwrap_or(false);
+                if got != want {
+                    ctx.violation(
+                        &format!("or-spelling/{}/{}", if want { "side-lost" } else { "admits-extra" }, if parts.iter().any(|p| p.contains(" - ")) { "hyphen-side" } else { "comparator-sides" }),
+                        json!({"text": text, "sides": parts, "version": v.text()}),
+                        format!("{:?}: version {} satisfies the whole = {} but some side alone = {}", text, v.text(), got, want),
+                    );
+                    break;
+                }
+            }
+            if any_side_admits {
+                ctx.nontrivial(&text);
+            }
+        }
+    }
     ctx.stratum("T-triples-all-orders", false);
     let nt = ctx.tier.n(5_000, 500_000);
     for i in 0..nt {
